@@ -115,6 +115,7 @@ class World:
         self.clock_sync = None
         self.last_payload = None
         self.in_line_seam = False
+        self.opened = []  # relpaths actually opened through the seam (containment tripwire)
 
     # ---------------------------------------------------------------- helpers
     def rel(self, path):
@@ -403,6 +404,7 @@ class World:
                 raise PermissionError(errno.EACCES, "injected EACCES", ap)
         f = _real_open(path, mode, *a, **kw)
         self.touched.append(self.rel(ap))
+        self.opened.append(self.rel(ap))
         if writing:
             self.utime(ap)
         self.after(kind, label)
